@@ -266,6 +266,7 @@ class Folder:
                 raise KeyError(name)
             return self._module_name(value[2], (prog, value[1]), depth + 1)
         key = (id(prog), mname, name)
+        _MODULE_VALUES = self.__dict__.setdefault("_module_values", {})        # per folder: closures in a table belong to this evaluation
         if key not in _MODULE_VALUES:
             saved_env, saved_h = self.env, self.helpers
             self.env, self.helpers = {}, {}
@@ -563,6 +564,31 @@ class Folder:
 
     def call(self, c):
         fn = _name(c.func)
+        if fn in ("all", "any") and fn not in self.env and len(c.args) == 1 and not c.keywords and isinstance(c.args[0], ast.GeneratorExp):
+            # all(..) / any(..) over a generator expression stop at the first deciding element: what a later element would raise is not raised
+            ge, saved, want_all = c.args[0], dict(self.env), fn == "all"
+
+            class _Decided(Exception):
+                pass
+
+            def rec(i):
+                if i == len(ge.generators):
+                    v = self.ev(ge.elt)
+                    if bool(v) != want_all:
+                        raise _Decided()
+                    return
+                g = ge.generators[i]
+                for item in self.ev(g.iter):
+                    self.assign(g.target, item)
+                    if all(self.ev(t) for t in g.ifs):
+                        rec(i + 1)
+            try:
+                rec(0)
+                return want_all
+            except _Decided:
+                return not want_all
+            finally:
+                self.env = saved
         args = []
         for a in c.args:
             if isinstance(a, ast.Starred):
@@ -720,6 +746,14 @@ class Folder:
                 target = None
             if callable(target):
                 return target(*args, **kw)
+        if isinstance(c.func, (ast.Subscript, ast.Call, ast.IfExp, ast.Lambda)):
+            # `table[key](..)`, `pick(..)(..)`: the callee is the value of an expression
+            target = self.ev(c.func)
+            if callable(target) and (not isinstance(target, type(len)) or _safe_builtin(target)):
+                try:
+                    return target(*args, **kw)
+                except PYEXC as x:
+                    raise Raised(type(x).__name__)
         raise Unknown("call %s" % fn)
 
     # ------------------------------------------------------------------ statements
